@@ -28,7 +28,7 @@ def is_dup(n, j):
     return (n + j) % 3 == 0
 
 
-def build_network(n, g, dup=False):
+def build_network(n, g, dup=False, unit=1):
     """g: list of [s, t, w, o]; edge j (1-based) has interior vertices 100+j, 200+j from stored source to target.
     dup: every third edge records its first interior vertex TWICE (a zero-length piece, as digitised networks have)."""
     from tracklib.core.network import Network, Node, Edge
@@ -41,7 +41,7 @@ def build_network(n, g, dup=False):
         geom = Track([Obs(vcoord(s)), Obs(vcoord(100 + j))] + ([Obs(vcoord(100 + j))] if dup and is_dup(n, j) else []) + [Obs(vcoord(200 + j)), Obs(vcoord(t))])
         e = Edge(j - 1 + eid0(n, g), geom)
         e.orientation = o
-        e.weight = w
+        e.weight = w * unit          # unit: the weights in another unit (a power of two: exact)
         net.addEdge(e, Node(s, vcoord(s)), Node(t, vcoord(t)))
     return net
 
@@ -60,7 +60,13 @@ def wire(d):
 def dist_events(n, g, id0, cuts, with_lists=True):
     """all ordered pairs (pair query), list form, all-pairs tables for each cut, prepared distances"""
     ev = []
-    net = build_network(n, g)
+    # the distances do not depend on the unit of the weights: a third of the graphs carry them in units of 2^-40 (exact; two routes
+    # then differ by far less than 1e-9 and still differ), the answers are scaled back
+    unit = 2.0 ** -40 if (n + 2 * len(g)) % 3 == 0 else 1
+    wire_ = wire
+    if unit != 1:
+        wire_ = lambda d: wire(d if (d is None or d >= 1e299 or d < 0) else d / unit)          # (the sentinels -1 and 1e300 are not lengths)
+    net = build_network(n, g, unit=unit)
     # all queries go to ONE network object, so every query but the first has a history; the order of the pairs varies with the
     # graph: source-major, target-major (every query follows one from another source, the self query (s, s) included), or
     # each self query first
@@ -74,23 +80,23 @@ def dist_events(n, g, id0, cuts, with_lists=True):
         f = (s + 2 * t + len(g)) % 4            # id/id, Node/id, id/Node, Node/Node
         with core.quiet():
             d = net.shortest_distance(arg(net, s, f & 1), arg(net, t, f >> 1))
-        ev.append({"id": id0 + len(ev), "ev": "dist", "n": n, "g": g, "s": s, "t": t, "d": wire(d), "api": "pair"})
+        ev.append({"id": id0 + len(ev), "ev": "dist", "n": n, "g": g, "s": s, "t": t, "d": wire_(d), "api": "pair"})
     for s in range(n):
         if with_lists:
             with core.quiet():
                 ds = net.shortest_distance(s)
-            ev.append({"id": id0 + len(ev), "ev": "list", "n": n, "g": g, "s": s, "ds": [wire(x) for x in ds]})
+            ev.append({"id": id0 + len(ev), "ev": "list", "n": n, "g": g, "s": s, "ds": [wire_(x) for x in ds]})
     for cut in cuts:
-        net2 = build_network(n, g)
+        net2 = build_network(n, g, unit=unit)
         with core.quiet():
-            tab = net2.all_shortest_distances(cut=(1e300 if cut >= 999999 else cut))
+            tab = net2.all_shortest_distances(cut=(1e300 if cut >= 999999 else cut * unit))
         ev.append({"id": id0 + len(ev), "ev": "table", "n": n, "g": g, "cut": cut,
-                   "pairs": [[k[0], k[1], wire(v)] for k, v in tab.items()]})
+                   "pairs": [[k[0], k[1], wire_(v)] for k, v in tab.items()]})
         if cut < 999999:                    # the same table through prepare(cut) and the prepared-distance getters
-            net4 = build_network(n, g)
+            net4 = build_network(n, g, unit=unit)
             with core.quiet():
-                net4.prepare(cut=cut, verbose=False)
-                pairs = [[s, t, wire(net4.prepared_shortest_distance(arg(net4, s, (s + t) & 1), arg(net4, t, (s + 2 * t + 1) >> 1 & 1)))]
+                net4.prepare(cut=cut * unit, verbose=False)
+                pairs = [[s, t, wire_(net4.prepared_shortest_distance(arg(net4, s, (s + t) & 1), arg(net4, t, (s + 2 * t + 1) >> 1 & 1)))]
                          for s in range(n) for t in range(n)
                          if net4.has_prepared_shortest_distance(arg(net4, s, (s + t + 1) & 1), arg(net4, t, (s + 2 * t) >> 1 & 1))]
             ev.append({"id": id0 + len(ev), "ev": "table", "n": n, "g": g, "cut": cut, "pairs": pairs, "api": "prepare"})
@@ -103,37 +109,42 @@ def dist_events(n, g, id0, cuts, with_lists=True):
         g0 = [list(x) for x in g[:-1]]
         if g0:
             g0[0][2] += 3
-        net5 = build_network(n, g0)
+        net5 = build_network(n, g0, unit=unit)
         with core.quiet():
             net5.prepare(verbose=False)
             if g0:
-                net5.getEdge(eid0(n, g0)).weight = g[0][2]
+                net5.getEdge(eid0(n, g0)).weight = g[0][2] * unit
             s_, t_, w_, o_ = g[-1]
             j = len(g)
             ed = Edge(j - 1 + eid0(n, g0), Track([Obs(vcoord(s_)), Obs(vcoord(100 + j)), Obs(vcoord(200 + j)), Obs(vcoord(t_))]))
             ed.orientation = o_
-            ed.weight = w_
+            ed.weight = w_ * unit
             net5.addEdge(ed, Node(s_, vcoord(s_)), Node(t_, vcoord(t_)))
             for s in range(n):
                 for t in range(n):
                     if (s + t + len(g)) % 2:
                         continue
                     d = net5.shortest_distance(s, t)
-                    ev.append({"id": id0 + len(ev), "ev": "dist", "n": n, "g": g, "s": s, "t": t, "d": wire(d), "api": "pair, network edited after prepare()"})
-    net3 = build_network(n, g)
+                    ev.append({"id": id0 + len(ev), "ev": "dist", "n": n, "g": g, "s": s, "t": t, "d": wire_(d), "api": "pair, network edited after prepare()"})
+    net3 = build_network(n, g, unit=unit)
     with core.quiet():
         net3.prepare(verbose=False)
     for s in range(n):
         for t in range(n):
             f = (2 * s + t + len(g)) % 4
             d = net3.prepared_shortest_distance(arg(net3, s, f & 1), arg(net3, t, f >> 1))
-            ev.append({"id": id0 + len(ev), "ev": "dist", "n": n, "g": g, "s": s, "t": t, "d": wire(d), "api": "prepared"})
+            ev.append({"id": id0 + len(ev), "ev": "dist", "n": n, "g": g, "s": s, "t": t, "d": wire_(d), "api": "prepared"})
     return ev
 
 
 def path_events(n, g, id0):
     ev = []
     net = build_network(n, g)
+    if (n + len(g)) % 3 == 0:
+        # history: the network was prepared with a FINITE cut-off (most pairs are then missing from the prepared table):
+        # shortest_path is not a prepared query and answers as before
+        with core.quiet():
+            net.prepare(cut=1, verbose=False)
     for s in range(n):
         for t in range(n):
             if s == t:
